@@ -108,7 +108,9 @@ def run_mode(mode, repo, out):
     _results[key] = d
     if mode == "system":
         os.makedirs(os.path.dirname(cpath), exist_ok=True)
-        json.dump(d, open(cpath, "w"))
+        tmp = cpath + ".%d.tmp" % os.getpid()
+        json.dump(d, open(tmp, "w"))
+        os.replace(tmp, cpath)   # atomic: checks of several properties may run at the same time
     return d
 
 
